@@ -206,11 +206,21 @@ def observe(cfg):
         first_g = None
         for g in basis(y0):
             gc = onp.conj(g)
+            # every second configuration hands the rule WRITEABLE cotangents (Fortran-ordered when 2-D: the layout LAPACK can work in
+            # place on) and compares them with a snapshot afterwards: a read-only flag makes NumPy / SciPy copy and hides an in-place write
+            g_snap = None
             if isinstance(gc, onp.ndarray):
-                gc.flags.writeable = False
+                if cfg["id"] % 2 == 1:
+                    gc = onp.asfortranarray(gc) if gc.ndim == 2 else onp.array(gc, copy=True)
+                    g_snap = onp.array(gc, copy=True)
+                else:
+                    gc.flags.writeable = False
             garg = gc if onp.ndim(y0) or onp.iscomplexobj(y0) or out_is_array else float(onp.real(gc))
             try:
                 r = vjp(garg)
+                if g_snap is not None and garg is gc and not onp.array_equal(gc, g_snap, equal_nan=True):
+                    v["cot_written"] = True
+                    gc[...] = g_snap
             except Exception as ex:     # noqa
                 if ncall == 0:
                     raise
@@ -372,6 +382,8 @@ def observe(cfg):
     try:
         if isinstance(x, onp.ndarray):
             pr["intact"] = bool(onp.array_equal(xin, frozen_src, equal_nan=True))
+        if v.get("cot_written"):
+            pr["intact"] = False          # a cotangent handed to the VJP function was modified
         # the primal under a depth-2 nesting (a forward trace inside a reverse trace)
         inner = lambda z: make_jvp(f)(z)(vspace(z).ones())[0]
         _vjp2, val2 = make_vjp(inner)(xin)
